@@ -36,6 +36,32 @@ theorem builder_accepts_wellformed (rs : List SrcRule) (fb : Nat) (h : WellForme
   | none => simp [hR] at this
   | some R => rfl
 
+/-- What the parser and `classifyRequestRule` guarantee of a REQUEST rule list the request builder
+accepts: a rule is either made of internal selectors (`sub/node/subnode`: split away) or of `qname` /
+`qtype` calls with at least one parameter each. -/
+def WellFormedRequest (rs : List SrcRule) : Prop :=
+  ∀ r ∈ rs, r.isInternal = true ∨
+    (r.funcs ≠ [] ∧ ∀ f ∈ r.funcs, f.isReqFunc = true ∧ f.nonEmpty = true)
+
+/-- ... and the request builder model accepts every such list: the hypothesis
+`compileRequest rs fb = some P` of the request theorems holds for all of them. -/
+theorem compileRequest_accepts_wellformed (rs : List SrcRule) (fb : Nat) (h : WellFormedRequest rs) :
+    (compileRequest rs fb).isSome = true := by
+  have hsplit : ∀ r ∈ splitRequestRules rs,
+      r.funcs ≠ [] ∧ ∀ f ∈ r.funcs, f.isReqFunc = true ∧ f.nonEmpty = true := by
+    intro r hr
+    obtain ⟨hmem, hni⟩ := List.mem_filter.mp hr
+    rcases h r hmem with hi | hok
+    · simp [hi] at hni
+    · exact hok
+  unfold compileRequest
+  have hall : (splitRequestRules rs).all (fun r => r.funcs.all Func.isReqFunc) = true := by
+    rw [List.all_eq_true]; intro r hr
+    rw [List.all_eq_true]; intro f hf
+    exact ((hsplit r hr).2 f hf).1
+  simp only [hall, if_true]
+  exact builder_accepts_wellformed _ fb (fun r hr => ⟨(hsplit r hr).1, fun f hf => ((hsplit r hr).2 f hf).2⟩)
+
 /-! ## Clause 1 — questions are routed by the first matching request rule -/
 
 /-- **Request routing is first-match.** For every request rule list and fallback the builder
@@ -89,6 +115,15 @@ example : Ex.envExample.name ≠ [] ∧ "a.example.com".toList ≠ [] ∧
     normName Ex.envExample.name = normName "a.example.com".toList := by decide
 -- ... but only ONE dot is trimmed: `a.example.com..` is a different name
 example : normName "a.example.com..".toList ≠ normName "a.example.com".toList := by decide
+
+/-- the same for the compiled matcher itself: `RequestMatcher.Match` answers alike for two non-empty
+names that differ only in letter case and one trailing dot. -/
+theorem request_match_case_and_trailing_dot (rs : List SrcRule) (fb : Nat) (P : Prog) (env : Env)
+    (n' : List Char) (hc : compileRequest rs fb = some P) (hw : OutsOK rs fb)
+    (h1 : env.name ≠ []) (h2 : n' ≠ []) (hn : normName env.name = normName n') :
+    requestMatch P { env with name := n' } = requestMatch P env := by
+  rw [request_match_is_first_match rs fb P _ hc hw, request_match_is_first_match rs fb P _ hc hw,
+    name_case_and_trailing_dot _ fb env n' h1 h2 hn]
 
 /-- `RequestSelect`: the decoded decision. `reject`/`asis` are the bytes `0xFC`/`0xFD`; any other
 byte is an upstream index, which the builder took from the defined upstreams (`< nUp`). -/
@@ -198,20 +233,42 @@ theorem response_addresses (r : Resp) (u : UpRef) (q : Question) (hq : r.q = som
     (respEnv r u).ips = r.recs.filterMap Rec.ip? ∧ (respEnv r u).«from» = u.index := by
   simp [respEnv, hq]
 
+/-- Only the ANSWER section is routed: whatever an upstream puts into the authority or additional
+section (glue records, anything hostile) changes no response-routing decision. -/
+theorem extra_sections_do_not_route (cfg : Cfg) (r : Resp) (u : UpRef) (ns extra : List Rec) :
+    responseSelect cfg { r with ns := ns, extra := extra } u = responseSelect cfg r u := by
+  cases hq : r.q <;> simp [responseSelect, respEnv, hq]
+
 /-! ## Clause 2 — reject beats the cache -/
 
-/-- **Reject beats cache.** Whatever the cache holds, a question routed to `reject` gets the empty
-answer, no upstream is asked, every cached answer of that (name, type) — under every scope — is
-gone afterwards, and nothing else in the cache changes. -/
-theorem reject_beats_cache (cfg : Cfg) (cache : Cache) (dst : Nat) (q : Question) (ans : Upstreams)
-    (h : requestSelect cfg q = .reject) :
-    let o := handle cfg cache dst false (some q) ans
+/-- **Reject beats cache.** Whatever the cache holds, a message (with or without question) routed to
+`reject` gets the empty answer and no upstream is asked; entries whose base key differs from the
+question's are untouched; and when the canonical name contains no `|`, every cached answer of that
+(name, type) — under every scope — is gone afterwards.  (For a name WITH `|` see
+`reject_keeps_cache_of_names_with_bar`: `dnsCacheBaseKey` cuts at the first `|`.) -/
+theorem reject_beats_cache (cfg : Cfg) (cache : Cache) (dst : Nat) (q? : Option Question) (ans : Upstreams)
+    (h : requestSelect cfg (q?.getD noQuestion) = .reject) :
+    let q := q?.getD noQuestion
+    let o := handle cfg cache dst false q? ans
     o.reply = .rejected ∧ o.trace = [] ∧
-    (∀ sc, o.cache.lookup ⟨canonName q.name, q.qtype, sc⟩ = none) ∧
-    (∀ k : CacheKey, ¬(k.name = canonName q.name ∧ k.qtype = q.qtype) → o.cache.lookup k = cache.lookup k) := by
-  simp only [handle, Option.getD_some, h, Bool.false_eq_true, if_false]
-  exact ⟨trivial, trivial, fun sc => lookup_removeFamily_same cache _ _ sc,
+    ((∀ c ∈ canonName q.name, (c != '|') = true) →
+        ∀ sc, o.cache.lookup ⟨canonName q.name, q.qtype, sc⟩ = none) ∧
+    (∀ k : CacheKey, baseKeyOf k ≠ canonName q.name ++ natDigits q.qtype → o.cache.lookup k = cache.lookup k) := by
+  simp only [handle, h, Bool.false_eq_true, if_false]
+  exact ⟨trivial, trivial, fun hn sc => lookup_removeFamily_same cache _ _ sc hn,
     fun k hk => lookup_removeFamily_other cache _ _ k hk⟩
+
+/-- Code as it is (observation, see design note): for a name that contains `|` (legal on the wire)
+`dnsCacheBaseKey` cuts the cache key inside the name, so the reject path — which still answers empty
+and asks nobody — does NOT remove the question's own cached answers. -/
+theorem reject_keeps_cache_of_names_with_bar (cfg : Cfg) (cache : Cache) (dst : Nat) (q : Question)
+    (ans : Upstreams) (h : requestSelect cfg q = .reject)
+    (hbar : ∃ c ∈ canonName q.name, (c != '|') = false) (sc : Scope) :
+    (handle cfg cache dst false (some q) ans).cache.lookup ⟨canonName q.name, q.qtype, sc⟩ =
+      cache.lookup ⟨canonName q.name, q.qtype, sc⟩ := by
+  have := (reject_beats_cache cfg cache dst (some q) ans h).2.2.2 ⟨canonName q.name, q.qtype, sc⟩
+    (baseKeyOf_bar _ _ sc hbar)
+  exact this
 
 -- non-vacuity: the cache holds two answers for the rejected question (two scopes) and one for
 -- another name; the question is rejected, both are gone, the other stays.
@@ -235,14 +292,14 @@ theorem cache_hit_asks_nobody (cfg : Cfg) (cache : Cache) (dst : Nat) (q : Quest
 upstream queries are exactly those of `dialSend` started there. -/
 theorem question_goes_to_selected_upstream (cfg : Cfg) (cache : Cache) (dst : Nat) (q : Question)
     (ans : Upstreams) (u : UpRef) (h : requestSelect cfg q = .to u)
-    (hmiss : cache.lookup ⟨canonName q.name, q.qtype, scopeOf dst u⟩ = none) :
+    (hmiss : cache.lookup ⟨canonName q.name, q.qtype, scopeOf dst u⟩ = none) (hpos : 0 < cfg.maxDepth) :
     (handle cfg cache dst false (some q) ans).trace = (dialSend cfg (some q) ans 0 u).1 ∧
     (dialSend cfg (some q) ans 0 u).1.head? = some u := by
   constructor
   · simp only [handle, Option.getD_some, h, hmiss, Bool.false_eq_true, if_false]
     cases hd : dialSend cfg (some q) ans 0 u with
     | mk t r => cases r <;> rfl
-  · rw [dialSend_step cfg (some q) ans 0 u (by decide)]
+  · rw [dialSend_step cfg (some q) ans 0 u hpos]
     cases ans 0 u with
     | none => rfl
     | some r =>
@@ -255,7 +312,7 @@ no answer → error; an answer to a different question → error (never routed, 
 accept → the answer as is; reject → the same message with the answer section emptied; another
 upstream → that upstream is asked next, one level deeper. -/
 theorem response_action (cfg : Cfg) (q? : Option Question) (ans : Upstreams) (d : Nat) (u : UpRef)
-    (h : d < maxDnsLookupDepth) :
+    (h : d < cfg.maxDepth) :
     (ans d u = none → dialSend cfg q? ans d u = ([u], .error .forwardFail)) ∧
     (∀ r, ans d u = some r → answersQuestion q? r = false →
         dialSend cfg q? ans d u = ([u], .error .questionMismatch)) ∧
@@ -275,6 +332,15 @@ theorem response_action (cfg : Cfg) (q? : Option Question) (ans : Upstreams) (d 
   · intro r h0 ha h1; rw [dialSend_step cfg q? ans d u h, h0]; simp [ha, h1]
   · intro r k h0 ha h1; rw [dialSend_step cfg q? ans d u h, h0]; simp [ha, h1]
   · intro r e h0 ha h1; rw [dialSend_step cfg q? ans d u h, h0]; simp [ha, h1]
+
+/-- A response routed to `reject` loses its ANSWER section only; question, rcode, authority and
+additional section are those of the upstream's message. -/
+theorem reject_empties_answer_section_only (cfg : Cfg) (q? : Option Question) (ans : Upstreams) (d : Nat)
+    (u : UpRef) (r : Resp) (h : d < cfg.maxDepth) (h0 : ans d u = some r)
+    (ha : answersQuestion q? r = true) (hr : responseSelect cfg r u = .reject) :
+    ∃ r', dialSend cfg q? ans d u = ([u], .ok r') ∧ r'.recs = [] ∧ r'.ns = r.ns ∧ r'.extra = r.extra ∧
+      r'.q = r.q ∧ r'.rcodeOk = r.rcodeOk :=
+  ⟨{ r with recs := [] }, (response_action cfg q? ans d u h).2.2.2.1 r h0 ha hr, rfl, rfl, rfl, rfl, rfl⟩
 
 /-- The final message is what the client gets, and a healthy one is stored under the cache key of
 the ORIGINAL request route (also when another upstream finally answered, also when emptied). -/
@@ -302,11 +368,12 @@ theorem question_follows_first_matching_request_rule (cfg : Cfg) (rs : List SrcR
     (cache : Cache) (dst : Nat) (q : Question) (ans : Upstreams)
     (hc : compileRequest rs fb = some cfg.req)
     (hup : ∀ o, (o = fb ∨ ∃ r ∈ rs, o = r.out) → o < cfg.nUp ∨ o = 0xFC ∨ o = 0xFD)
-    (hn : cfg.nUp ≤ 0xFC) :
+    (hn : cfg.nUp ≤ 0xFC) (hpos : 0 < cfg.maxDepth) :
     let d := decodeReq (firstMatchSrc (reqEnv q) (splitRequestRules rs) fb)
     let o := handle cfg cache dst false (some q) ans
     (d = .reject → o.reply = .rejected ∧ o.trace = [] ∧
-        ∀ sc, o.cache.lookup ⟨canonName q.name, q.qtype, sc⟩ = none) ∧
+        ((∀ c ∈ canonName q.name, (c != '|') = true) →
+          ∀ sc, o.cache.lookup ⟨canonName q.name, q.qtype, sc⟩ = none)) ∧
     (∀ u, d = .to u → cache.lookup ⟨canonName q.name, q.qtype, scopeOf dst u⟩ = none →
         o.trace.head? = some u) ∧
     (∀ u recs, d = .to u → cache.lookup ⟨canonName q.name, q.qtype, scopeOf dst u⟩ = some recs →
@@ -314,10 +381,10 @@ theorem question_follows_first_matching_request_rule (cfg : Cfg) (rs : List SrcR
   have hsel := request_select_is_first_match cfg rs fb q hc hup hn
   refine ⟨?_, ?_, ?_⟩
   · intro hd
-    have h := reject_beats_cache cfg cache dst q ans (hsel.trans hd)
+    have h := reject_beats_cache cfg cache dst (some q) ans (hsel.trans hd)
     exact ⟨h.1, h.2.1, h.2.2.1⟩
   · intro u hd hmiss
-    have h := question_goes_to_selected_upstream cfg cache dst q ans u (hsel.trans hd) hmiss
+    have h := question_goes_to_selected_upstream cfg cache dst q ans u (hsel.trans hd) hmiss hpos
     rw [h.1]; exact h.2
   · intro u recs hd hhit
     have h := cache_hit_asks_nobody cfg cache dst q ans u recs (hsel.trans hd) hhit
@@ -329,7 +396,7 @@ exactly as the first matching response rule — evaluated on the answer's name, 
 upstream and the A/AAAA addresses — or the fallback says. -/
 theorem answer_follows_first_matching_response_rule (cfg : Cfg) (rs : List SrcRule) (fb : Nat)
     (q? : Option Question) (ans : Upstreams) (d : Nat) (u : UpRef) (r : Resp) (rq : Question)
-    (hd : d < maxDnsLookupDepth) (h0 : ans d u = some r) (ha : answersQuestion q? r = true)
+    (hd : d < cfg.maxDepth) (h0 : ans d u = some r) (ha : answersQuestion q? r = true)
     (hq : r.q = some rq) (hname : rq.name ≠ []) (hresp : r.isResponse = true)
     (hc : compile rs fb = some cfg.resp)
     (hup : ∀ o, (o = fb ∨ ∃ x ∈ rs, o = x.out) → o < cfg.nUp ∨ o = 0xFC ∨ o = 0xFD)
@@ -348,18 +415,19 @@ theorem answer_follows_first_matching_response_rule (cfg : Cfg) (rs : List SrcRu
 
 /-- **Bounded re-asks.** For every configuration (in particular every response rule list, also
 ones that bounce answers between upstreams forever), every cache, every client message and every
-upstream behaviour, at most `MaxDnsLookupDepth = 3` upstream queries are sent.  (That `handle`
-is a total function — accepted by Lean's termination checker — is the "cannot loop forever".) -/
+upstream behaviour, at most `MaxDnsLookupDepth` (`cfg.maxDepth`; 3 in the code, printed by the
+harness from the constant under test) upstream queries are sent.  (That `handle` is a total function —
+accepted by Lean's termination checker — is the "cannot loop forever".) -/
 theorem reask_bounded (cfg : Cfg) (cache : Cache) (dst : Nat) (isResp : Bool) (q? : Option Question)
     (ans : Upstreams) :
-    (handle cfg cache dst isResp q? ans).trace.length ≤ maxDnsLookupDepth := by
-  have hb : ∀ u, (dialSend cfg q? ans 0 u).1.length ≤ maxDnsLookupDepth :=
-    fun u => dialSend_trace_le cfg q? ans maxDnsLookupDepth 0 u rfl
+    (handle cfg cache dst isResp q? ans).trace.length ≤ cfg.maxDepth := by
+  have hb : ∀ u, (dialSend cfg q? ans 0 u).1.length ≤ cfg.maxDepth :=
+    fun u => dialSend_trace_le cfg q? ans cfg.maxDepth 0 u rfl
   cases isResp with
   | true => simp [handle]
   | false =>
     simp only [handle, Bool.false_eq_true, if_false]
-    generalize q?.getD ⟨[], 0, []⟩ = q
+    generalize q?.getD noQuestion = q
     cases requestSelect cfg q with
     | err e => simp
     | reject => simp
@@ -377,19 +445,21 @@ after exactly `MaxDnsLookupDepth` queries, whatever the upstreams answer. -/
 theorem bouncing_ends_with_error (cfg : Cfg) (q? : Option Question) (ans : Upstreams) (u : UpRef)
     (hall : ∀ d v, ∃ r k, ans d v = some r ∧ answersQuestion q? r = true ∧ responseSelect cfg r v = .next k) :
     (dialSend cfg q? ans 0 u).2 = .error .tooDeep ∧
-    (dialSend cfg q? ans 0 u).1.length = maxDnsLookupDepth := by
-  have step : ∀ d v, d < maxDnsLookupDepth → ∃ k,
-      dialSend cfg q? ans d v =
-        (v :: (dialSend cfg q? ans (d + 1) (.up k)).1, (dialSend cfg q? ans (d + 1) (.up k)).2) := by
-    intro d v hd
-    obtain ⟨r, k, h0, ha, h1⟩ := hall d v
-    exact ⟨k, (response_action cfg q? ans d v hd).2.2.2.2.1 r k h0 ha h1⟩
-  obtain ⟨k0, e0⟩ := step 0 u (by decide)
-  obtain ⟨k1, e1⟩ := step 1 (.up k0) (by decide)
-  obtain ⟨k2, e2⟩ := step 2 (.up k1) (by decide)
-  have e3 := dialSend_deep cfg q? ans 3 (.up k2) (by decide)
-  rw [e0, e1, e2, e3]
-  exact ⟨rfl, rfl⟩
+    (dialSend cfg q? ans 0 u).1.length = cfg.maxDepth := by
+  have key : ∀ (n d : Nat) (v : UpRef), cfg.maxDepth - d = n →
+      (dialSend cfg q? ans d v).2 = .error .tooDeep ∧ (dialSend cfg q? ans d v).1.length = n := by
+    intro n
+    induction n with
+    | zero =>
+      intro d v h
+      rw [dialSend_deep cfg q? ans d v (by omega)]; exact ⟨rfl, rfl⟩
+    | succ n ih =>
+      intro d v h
+      obtain ⟨r, k, h0, ha, h1⟩ := hall d v
+      rw [(response_action cfg q? ans d v (by omega)).2.2.2.2.1 r k h0 ha h1]
+      have := ih (d + 1) (.up k) (by omega)
+      exact ⟨this.1, by simp [this.2]⟩
+  exact key cfg.maxDepth 0 u rfl
 
 -- non-vacuity: `upstream(u0) -> u1; upstream(u1) -> u0; fallback: u0` sends EVERY answer on.
 example : ∀ (d : Nat) (v : UpRef), ∃ r k, (fun _ _ => some Ex.respLoop : Upstreams) d v = some r ∧
